@@ -56,8 +56,7 @@ let f _id vs =
     let fuel = nat_of_int (List.length ats + 3) in
     let strat = stratified m in
     let has_e = List.exists (fun t -> t.t_ceval = E && valid_for_read m cs t) store in
-    (* memory.ReadUsersetTuples ignores the Conditions filter; sqlite applies it *)
-    let stale = as_int backend = 0 && has_stale m store in
+    let _ = backend in
     let ttuus = has_ttu_userset m store in
     let uniq l = List.sort_uniq compare l in
     let edge_parts (((a, b), c), d) = (a, b, c, d) in
@@ -87,17 +86,16 @@ let f _id vs =
         let pathx = List.map dec_pair (as_list px) in
         let (v, conv) = lfp m cs store subj ats in
         (* semantics variants, computed on demand; switches (Check/V2Sem.v):
-           nr noreflex, ne noexpand, st relax_stale, tu strip_ttu_userset, sc strict_cond,
+           nr noreflex, ne noexpand, tu strip_ttu_userset, sc strict_cond,
            kl keep_last_recursive, so/su swallow by object / by user *)
         let memo = Hashtbl.create 8 in
-        let variant ((nr, ne, st, tu, sc, kl, so, su, win, poison) as key) =
+        let variant ((nr, ne, tu, sc, kl, so, su, win, poison) as key) =
           match Hashtbl.find_opt memo key with
           | Some x -> x
           | None ->
             let q = { q_noreflex = nr; q_noexpand = ne; q_ttuwin = win; q_poison = poison } in
             let mm = if kl then m_kl else m in
             let ss = if sc then strict_cond m cs store else store in
-            let ss = if st then relax_stale m ss else ss in
             let ss = if tu then strip_ttu_userset m ss else ss in
             let ss = if so || su then swallow mm cs so su ss else ss in
             let (vq, cq) = lfp_q q cyc cyct mm cs ss subj ats in
@@ -112,18 +110,17 @@ let f _id vs =
           let nr = (kind = KSet) in
           let bools c = if c then [false; true] else [false] in
           let combos =
-            List.concat_map (fun ne -> List.concat_map (fun st -> List.concat_map (fun tu ->
+            List.concat_map (fun ne -> List.concat_map (fun tu ->
             List.concat_map (fun sc -> List.concat_map (fun kl ->
-              List.map (fun (so, su) -> (nr, ne, st, tu, sc, kl, so, su, [], []))
+              List.map (fun (so, su) -> (nr, ne, tu, sc, kl, so, su, [], []))
                 (if has_e then [(false, false); (true, false); (false, true); (true, true)] else [(false, false)]))
-              (bools (tworec && kind <> KSet))) (bools lax)) (bools ttuus)) (bools stale)) (bools (kind = KSet)) in
-          let weight (_, ne, st, tu, sc, kl, so, su, _, _) = List.length (List.filter (fun x -> x) [ne; st; tu; sc; kl; so || su]) in
+              (bools (tworec && kind <> KSet))) (bools lax)) (bools ttuus)) (bools (kind = KSet)) in
+          let weight (_, ne, tu, sc, kl, so, su, _, _) = List.length (List.filter (fun x -> x) [ne; tu; sc; kl; so || su]) in
           let combos = List.stable_sort (fun x y -> compare (weight x) (weight y)) combos in
           match List.find_opt (fun sw -> variant_val sw o rel = Some got) combos with
-          | Some (_, ne, st, tu, sc, kl, so, su, _, _) ->
+          | Some (_, ne, tu, sc, kl, so, su, _, _) ->
             Some (if ne then "userset_subject_not_expanded"
                   else if tu then "ttu_userset_tuple_accepted"
-                  else if st then "stale_condition_userset_memory"
                   else if sc then "condition_on_other_restriction_kind"
                   else if kl then "two_recursive_edges"
                   else if so || su then "cond_err_swallowed"
@@ -135,8 +132,8 @@ let f _id vs =
               | p :: rest -> List.concat_map (fun tl -> List.map (fun c -> (p, c) :: tl) cs) (maps rest cs) in
             let rec subsets = function [] -> [[]] | x :: r -> let s = subsets r in s @ List.map (fun l -> x :: l) s in
             let take n l = List.filteri (fun i _ -> i < n) l in
-            let base = (nr, false, false, false, false, false, false, false) in
-            let mk (a, b, c, d, e, f, g, h) win poison = (a, b, c, d, e, f, g, h, win, poison) in
+            let base = (nr, false, false, false, false, false, false) in
+            let mk (a, b, c, d, e, f, g) win poison = (a, b, c, d, e, f, g, win, poison) in
             let wins = if List.length ttu_comps >= 2 then maps (take 5 ttu_parents) (take 3 ttu_comps) else [] in
             if List.exists (fun w -> w <> [] && variant_val (mk base w []) o rel = Some got) wins
             then Some "ttu_visited_key_without_relation"
